@@ -660,7 +660,7 @@ theorem occursStr_short (p : List CharVar) (h : List Nat) (a : Nat)
 
 /-! ### Matrices: cells -/
 
-theorem mem_zip_range {α : Type} {l : List α} {i : Nat} {x : α} :
+theorem mem_zip_range_dom {α : Type} {l : List α} {i : Nat} {x : α} :
     (i, x) ∈ (List.range l.length).zip l ↔ l[i]? = some x := by
   rw [List.mem_iff_getElem?]
   simp only [List.getElem?_zip_eq_some]
@@ -681,9 +681,9 @@ theorem mem_matCells {p : MatPattern} {i j : Nat} {cv : CharVar} :
     Prod.mk.injEq]
   constructor
   · rintro ⟨i', row, hrow, j', ocv, hj, cv', rfl, rfl, rfl, rfl⟩
-    exact ⟨row, mem_zip_range.1 hrow, mem_zip_range.1 hj⟩
+    exact ⟨row, mem_zip_range_dom.1 hrow, mem_zip_range_dom.1 hj⟩
   · rintro ⟨row, hrow, hj⟩
-    exact ⟨i, row, mem_zip_range.2 hrow, j, some cv, mem_zip_range.2 hj, cv, rfl, rfl, rfl, rfl⟩
+    exact ⟨i, row, mem_zip_range_dom.2 hrow, j, some cv, mem_zip_range_dom.2 hj, cv, rfl, rfl, rfl, rfl⟩
 
 /-- The non-hole cells with keys re-associated as pairs. -/
 def natCells (p : MatPattern) : List ((Nat × Nat) × CharVar) :=
